@@ -2,8 +2,9 @@
    Only statements and `exact`; the lemmas live in Proofs/. *)
 From V.Lib Require Import Bytes Base64.
 From V.Gen Require Import Consts.
-From V.Model Require Import Signed.
-From V.Proofs Require Import SignedProofs.
+From V.Lib Require Import NetAddr.
+From V.Model Require Import Signed Cookies CookieStore Ticket.
+From V.Proofs Require Import SignedProofs CookiesProofs CookieStoreProofs.
 Open Scope Z_scope.
 
 (* For every MAC function, cookie name, presented cookie string, clock reading and non-zero
@@ -28,3 +29,29 @@ Theorem c09_rejected_if_future : forall (mac : str -> str) name c now e,
   e <> 0 -> forall v t, validate mac name c now e = Some (v, t) -> t * 1000000000 - now < skew_ns.
 Proof. exact validate_future. Qed.
 Print Assumptions c09_rejected_if_future.
+
+(* the timestamp a store signs is the session's CreatedAt: issuing with created_s and validating
+   inside the window returns exactly created_s, so the lifetime runs from issue / last refresh
+   (a refresh sets CreatedAt := now before re-saving) *)
+Theorem c09_issue_time : forall (mac : str -> str), (forall m, is_bytes (mac m)) ->
+  forall name value t now e,
+  is_bytes value -> ts_ok t = true -> in_window t now e = true ->
+  validate mac name (signed_value mac name value t) now e = Some (value, t).
+Proof. exact validate_signed_value. Qed.
+Print Assumptions c09_issue_time.
+
+(* Max-Age given to the browser = the configured lifetime in whole seconds, on every part of the
+   session cookie; the server-side entry is written with the configured lifetime as TTL *)
+Theorem c09_maxage : forall cfg host signed parts,
+  make_session_cookie cfg host signed = Some parts ->
+  Forall (fun p => sc_maxage p = max_age_of (c_expire_ns cfg)) parts.
+Proof. exact session_cookie_max_age. Qed.
+Print Assumptions c09_maxage.
+
+Theorem c09_maxage_seconds : forall e, 0 < e -> max_age_of e = e / 1000000000.
+Proof. exact max_age_is_lifetime. Qed.
+Print Assumptions c09_maxage_seconds.
+
+Theorem c09_store_ttl : forall cfg, manager_save_ttl cfg = c_expire_ns cfg.
+Proof. reflexivity. Qed.
+Print Assumptions c09_store_ttl.
